@@ -111,6 +111,18 @@ pub(crate) mod verif_la {
         }
         LeapArray { bucket_len_ms: len, sample_count: N as u32, interval_ms: len * N as u32, array, mutex }
     }
+    /// generic variant for other bucket payloads (circuit-breaker Counter)
+    pub(crate) fn mk_ring_of<T: MetricTrait, const N: usize>(len: u32, st: &[u64; N], vals: [T; N]) -> LeapArray<T> {
+        let mut array = Vec::with_capacity(N);
+        let mut mutex = Vec::with_capacity(N);
+        let mut i = 0;
+        for v in vals {
+            array.push(Arc::new(BucketWrap { start_stamp: AtomicU64::new(st[i]), value: v }));
+            mutex.push(Mutex::new(false));
+            i += 1;
+        }
+        LeapArray { bucket_len_ms: len, sample_count: N as u32, interval_ms: len * N as u32, array, mutex }
+    }
     pub(crate) fn mk_ring_from_slots<const N: usize>(len: u32, g: &[SlotG; N]) -> LeapArray<MetricBucket> {
         let mut st = [0u64; N];
         let mut vw = [RESET_VIEW; N];
@@ -195,6 +207,7 @@ pub(crate) mod verif_la {
         let iv: u32 = kani::any();
         let expect_ok = cnt != 0 && iv % cnt == 0;
         vs::allow_err(!expect_ok);
+        kani::cover!(expect_ok || cnt == 0);
         let r = LeapArray::<MetricBucket>::new(cnt, iv);
         assert!(r.is_ok() == expect_ok);
         if let Ok(a) = r {
@@ -205,7 +218,6 @@ pub(crate) mod verif_la {
             assert!(a.array[j].start_stamp() == 0);
             assert!(a.array[j].value().verif_view().same(&RESET_VIEW));
         }
-        kani::cover!(expect_ok || cnt == 0);
     }
     macro_rules! new_harness {
         ($name:ident, $cnt:expr, $errstub:path) => {
@@ -389,11 +401,15 @@ pub(crate) mod verif_la {
 
     #[kani::proof]
     #[kani::unwind(3)]
+    #[kani::stub(crate::core::system_metric::get_total_memory_size, crate::verif_support::any_total_memory)]
+    #[kani::stub(std::backtrace::Backtrace::capture, std::backtrace::Backtrace::disabled)]
     fn la_get_valid_values_conditional_2x500() {
         check_get_valid_values_conditional::<2>(500);
     }
     #[kani::proof]
     #[kani::unwind(4)]
+    #[kani::stub(crate::core::system_metric::get_total_memory_size, crate::verif_support::any_total_memory)]
+    #[kani::stub(std::backtrace::Backtrace::capture, std::backtrace::Backtrace::disabled)]
     fn la_get_valid_values_conditional_3x200() {
         check_get_valid_values_conditional::<3>(200);
     }
